@@ -260,15 +260,14 @@ class C12(Property):
         'that the copy shares no mutable state, keeps name/ref/data and the class is oracle-only; NaN parameters violate equality (finding 7, parameter equality is reflexive in the model)',
         'decimal coefficients: the model adds exact rationals, Python adds doubles; parse_written carries the hypothesis floatSafe (dyadic fractions, totals < 2^38) under which both agree '
         '(IEEE exactness is an argument in the docstring, not a Lean proof); outside it (1.2 A + 1.4 A + 1.4 A) the harness checks the model against the exact and Python against the IEEE reference; '
-        'the single-reaction print/parse theorems are stated over the eval-free core toReactionCore (the system theorem goes through toReaction true); '
                 'decimal coefficients: theorem for texts "n.ddd" with n >= 1 and at most 15 digits (exact value); exponent forms (1e2), leading-dot forms, signs, '
         'underscores and the float rounding of sums of non-dyadic decimals are correspondence-only',
         'keys that contain the arrow token (e.g. C=O in an equilibrium line) or ";" are excluded from parse_written (witness: token_in_key_missplit_witness); '
         'named reactions / named systems do not round-trip (witnesses); both are outside the theorems\' hypotheses',
         'system round trip: theorem covers unnamed systems of reactions with sorted int dictionaries; ReactionSystem-level checks (balance, substance_keys, duplicates), '
         'substance construction (substance_factory) and ReactionSystem.__eq__ on substances are oracle-only',
-        'the sorted key order of the parsed dictionaries is stated only through the round-trip theorems; for arbitrary written lines it is checked by the oracle',
-        'constructor arguments checks / dont_check, the check_* predicates with throw=False, Reaction.__eq__ on unequal / foreign / identical operands, unknown printer settings and '
+        '"parameters to the printed precision" composition with C20 (NumText (fmtG 3 x) for every x, and the value that text denotes) is still missing: the C12 theorems take NumText p as a hypothesis; the oracle checks the value',
+        'Reaction.__eq__ on foreign / identical operands (eq_iff covers reaction operands; checks / dont_check lists are characterised by init_checks_list_iff / init_dont_check_iff up to the Python set order of several failing checks), unknown printer settings and '
         'fallback_print_fn=None: modelled (initChecks, anyEffect/allPositive/allIntegral, Reaction.eq, printReactionWith) and compared case by case with the real code and an independent '
         'oracle, but stated as theorems only where they touch the property (parsed_passes_default_checks, copy_eq); the set order in which several failing checks raise is not modelled',
         'the quoted parameter form: theorem quoted_param_is_symbol is about the text classification; that the real object is MassAction(Symbol(unique_keys=(k,))) and prints back as \'k\' is oracle-only',
